@@ -275,6 +275,15 @@ def build ():
   # IPv6
   add("ip6_udp", e(M2, M1, 0x86dd, ipv6(A6, B6, 17, udp6(A6, B6, 1000, 2000, b"six"))))
   add("ip6_tcp", e(M2, M1, 0x86dd, ipv6(A6, B6, 6, tcp6(A6, B6, 1000, 80, b"GET"))))
+  # UDP datagrams whose checksum computes to 0x0000 and therefore travels as
+  # 0xffff (the last payload word is solved for)
+  def zero_sum (mk):
+    c = struct.unpack_from("!H", mk(b"zero-sum\0\0"), 6)[0]
+    return mk(b"zero-sum" + struct.pack("!H", c))
+  add("ip6_udp_sum0", e(M2, M1, 0x86dd, ipv6(A6, B6, 17,
+      zero_sum(lambda p: udp6(A6, B6, 1000, 2000, p)))))
+  add("udp_sum0", e(M2, M1, 0x0800, ip(IP1, IP2, 17,
+      zero_sum(lambda p: F.udp(1000, 2000, p, src=IP1, dst=IP2)))))
   add("ip6_echo", e(M2, M1, 0x86dd, ipv6(A6, B6, 58, icmp6(A6, B6, 128, 0,
       struct.pack("!HH", 1, 2) + b"ping6"))))
   add("ip6_echo_reply", e(M1, M2, 0x86dd, ipv6(B6, A6, 58, icmp6(B6, A6, 129, 0,
@@ -557,6 +566,8 @@ EXPECTED_LAYERS = {
   'ip_igmp2_report': 'ethernet>ipv4>igmp',
   'ip_igmp3_report': 'ethernet>ipv4>igmp',
   'ip_igmp3_report_aux': 'ethernet>ipv4>igmp',
+  'ip6_udp_sum0': 'ethernet>ipv6>udp',
+  'udp_sum0': 'ethernet>ipv4>udp',
   'ip_igmp3_report_aux_long': 'ethernet>ipv4>igmp',
   'gre_plain_ip': 'ethernet>ipv4>gre>ipv4>udp',
   'gre_key_seq': 'ethernet>ipv4>gre>ethernet',
